@@ -97,7 +97,7 @@ def scaffold(machine_cells, lfanew=64, extra=0, fill=0x11):
     return dos + gap + [0x50, 0x45, 0, 0] + filehdr + [fill] * extra
 
 
-def h_detect(stublen, marker, good_size, mach, nonce_fixed=None):
+def h_detect(stublen, marker, good_size, mach, nonce_fixed=None, maxrange=None):
     """nonce_fixed: None = fully symbolic nonce with the strong validity predicate (single candidate offset);
     a 4-list with None entries for symbolic bytes = crafted stage with stray candidates AFTER the true offset
     (e.g. a nonce beginning ff ff ff), for which only candidates before the true offset are excluded"""
@@ -137,7 +137,7 @@ def h_detect(stublen, marker, good_size, mach, nonce_fixed=None):
             m = rawb.match_at([0xFF, 0xFF, 0xFF], i)
             ctx.assume(mkbool(z3.Not(m.e)) if isinstance(m, SymBool) else (not m))
         raw = ModelBytesIO(rawb)
-        kind, r = outcome(xordecode.XorEncodedFile.from_file, raw)
+        kind, r = outcome(xordecode.XorEncodedFile.from_file, raw, **({} if maxrange is None else dict(maxrange=maxrange)))
         if marker or good_size:
             ctx.prove(kind == "ok", "stage with %s is detected (got %s)" % (
                 "marker+size" if marker and good_size else "marker" if marker else "size field", r if kind == "exc" else "ok"))
@@ -223,6 +223,10 @@ def instances(tier):
                             h_detect(stublen, marker, good, "x64", nf),
                             dict(kind="detect_stray", stub=stublen, marker=marker, size_ok=good, nonce=[("sym" if x is None else x) for x in nf], cost=10 ** 6),
                             split=6, max_loop=3000))
+    # the nonce offset lies in the last positions of the scan range (size-based candidates exist for every offset < maxrange)
+    for mr, stl in (((16, 15), (16, 9), (12, 8)) if q else ((16, 15), (16, 12), (16, 9), (16, 8), (12, 11), (12, 8), (24, 23), (24, 17))):
+        out.append(Instance("detect stub=%d size-only maxrange=%d" % (stl, mr), h_detect(stl, False, True, "x86", maxrange=mr),
+                            dict(kind="detect_window", stub=stl, maxrange=mr, cost=10 ** 6), split=6, max_loop=3000))
     for N in (range(0, 11) if q else range(0, 13)):
         # the scan range is a public parameter; offsets beyond the file end all behave alike (EOFError -> continue),
         # so a 48-offset range exercises the same code as the default 1024 at a fraction of the interpretation cost
